@@ -66,10 +66,12 @@ def entries():
 
     def reducer(kw_keepdims=True, axis_tuple=False):
         def gen(rng, mk):
-            s = _shape(rng, 1, 3)
+            s = _shape(rng, 0, 3)
             kw = {}
             r = rng.random()
-            if r < 0.6:
+            if not s:
+                pass                      # a 0-d operand: numpy accepts no axis but None
+            elif r < 0.6:
                 kw["axis"] = _axis(rng, len(s), allow_none=False)
             elif r < 0.75 and axis_tuple and len(s) >= 2:
                 axes = rng.sample(range(len(s)), rng.randint(2, len(s)))      # any order, negative entries too
@@ -88,14 +90,14 @@ def entries():
 
     @reg("reshape")
     def _(rng, mk):
-        s = _shape(rng, 1, 3)
-        n = int(numpy.prod(s))
-        cands = [(n,), (-1,), (1, n), (n, 1)] + [(a, n // a) for a in (2, 3) if n % a == 0] + [(2, -1)] * (n % 2 == 0)
+        s = _shape(rng, 0, 3)
+        n = int(numpy.prod(s)) if s else 1
+        cands = [(n,), (-1,), (1, n), (n, 1)] + [()] * (n == 1) + [(a, n // a) for a in (2, 3) if n % a == 0] + [(2, -1)] * (n % 2 == 0)
         return (mk(s), rng.choice(cands)), {}
 
     @reg("transpose")
     def _(rng, mk):
-        s = _shape(rng, 1, 3)
+        s = _shape(rng, 0, 3)
         kw = {}
         if rng.random() < 0.5:
             ax = list(range(len(s)))
@@ -118,8 +120,8 @@ def entries():
 
     @reg("repeat")
     def _(rng, mk):
-        s = _shape(rng, 1, 2)
-        kw = {"axis": _axis(rng, len(s))} if rng.random() < 0.7 else {}
+        s = _shape(rng, 0, 2)
+        kw = {"axis": _axis(rng, len(s))} if s and rng.random() < 0.7 else {}
         return (mk(s), rng.choice([1, 2, 3])), kw
 
     @reg("tile")
@@ -174,9 +176,18 @@ def entries():
         s[ax] = rng.choice([3, 4, 5])
         return (mk(tuple(s)), rng.choice([2, 3, [1, 2]])), {"axis": ax}
 
-    E["hsplit"] = lambda rng, mk: ((mk((rng.choice([1, 2]), 4)), 2), {})
-    E["vsplit"] = lambda rng, mk: ((mk((4, rng.choice([1, 2]))), 2), {})
-    E["dsplit"] = lambda rng, mk: ((mk((1, 2, 4)), 2), {})
+    def splitter(axis, mindim):
+        """hsplit/vsplit/dsplit on every rank numpy accepts (hsplit: 1-D arrays are split along axis 0), with a section
+        count or a list of split points."""
+        def gen(rng, mk):
+            nd = rng.randint(mindim, 3)
+            s = [rng.choice([1, 2]) for _ in range(nd)]
+            s[axis if nd > axis else 0] = 4
+            return (mk(tuple(s)), rng.choice([2, 2, 4, [1, 3], [2]])), {}
+        return gen
+    E["hsplit"] = splitter(1, 1)
+    E["vsplit"] = splitter(0, 2)
+    E["dsplit"] = splitter(2, 3)
 
     @reg("diag")
     def _(rng, mk):
@@ -199,9 +210,15 @@ def entries():
 
     @reg("choose")
     def _(rng, mk):
-        s = _shape(rng, 1, 2)
-        idx = numpy.array([rng.randrange(2) for _ in range(int(numpy.prod(s)))]).reshape(s)
-        return (idx, [mk(s), mk(s)]), {}
+        s = _shape(rng, 0, 2)                   # 0-d index with 0-d choices included (D34)
+        n = rng.choice([2, 2, 3])
+        kw = {}
+        lo, hi = 0, n
+        if rng.random() < 0.25:
+            kw["mode"] = rng.choice(["wrap", "clip"])
+            lo, hi = -2, n + 2
+        idx = numpy.array([rng.randrange(lo, hi) for _ in range(int(numpy.prod(s)) if s else 1)]).reshape(s)
+        return (idx, [mk(s) for _ in range(n)]), kw
 
     E["full"] = lambda rng, mk: ((_shape(rng, 1, 2), mk(())), {})
     E["full_like"] = lambda rng, mk: ((mk(_shape(rng, 1, 2)), mk(())), {})
